@@ -57,7 +57,8 @@ class SimStall(BaseException):
 
 def gen(ch, tier):
     cfg = TIERS[tier]
-    fams = [("nested", 3), ("staircase", 3), ("spanning", 3), ("jitter", 3), ("random", 2), ("grid", 2), ("sparse", 1)]
+    fams = [("nested", 3), ("staircase", 3), ("staircase_shared", 3), ("spanning", 3), ("jitter", 3), ("random", 2), ("grid", 3),
+            ("sparse", 1)]
     fam_pick = ch.weighted(fams)
     if fam_pick == "spanning":
         # one annotator with long units spanning several short units of the others
